@@ -26,7 +26,7 @@ ADVERSARIAL = ['=A0', '=A1:A0', '=AAAA1', '=XFE1', '=ZZZZ1:A1', '=Nope!A1', "='N
                '=SEARCH("a")', '=IFERROR(1)', '=IFERROR(1,2,3)', '=YEAR()', '=DAY(1,2)', '=EOMONTH(A1)', '=VLOOKUP(1,A1:B2,5)', '=INDEX(A1:B2,9)', '=ADDRESS(1,99999)',
                '=SUMIF(A1:B2,10,A:A)', '=SUMIF(A1:A2,1,B:B)', '=SUMIF(A:A,1,B2)', '=SUMIF(A1:A2,">0",B:C)', '=SUMIF(A:B,1,B2)', '=SUMIFS(A:A,B1:B2,1)', '=COUNTIFS(A:A,1,B1:B2,2)',
                '=AVERAGEIFS(A1:A2,B:B,1)', '=VLOOKUP(1,A:B,2)', '=INDEX(A:B,1,1)', '=MATCH(1,A:A)', '=SUM(A:A,B1)', '=A:A+1', '=A:A%']
-TITLES = ['S', 'Sheet 2', "it's", 'A1', 'SUM', 'Лист', 'x!y', '{0}', "quote'\"", 'a\\b', '1st', 'Data_2']
+TITLES = ['S', 'Sheet 2', "it's", 'A1', 'SUM', 'Лист', 'x!y', '{0}', "quote'\"", 'a\\b', '1st', 'Data_2', '\U0001F4CA Report', '表', 'tab\there']
 CONSTANTS = [0, -1, 2 ** 70, 1.5, -0.0, 1e300, True, False, '', 'x', "it's", 'a\\', '{x}', '{titles}', 'tab\t', 'nl\n', 'eval(1)', 'é✓', "'''", '"""', '\\n']
 
 
@@ -378,7 +378,7 @@ def file_vs_object(chk, rng):
             rows.append([7])
             rows.append([1, 2, 3, 4, 5])
             rows.append(['=B6+1', '=SUM(A6:E6)', '=C6&"x"', '=COUNT(A6:E7)', '=INDEX(A6:E7,1,4)'])
-            sheets = [('Main', rows), ('Other sheet', [['=Main!A1', 5]])]
+            sheets = [('Main', rows), ('Other sheet', [['=Main!A1', 5]]), ('Empty sheet', []), ('\U0001F4CA Report', [[1]])]
             try:
                 text, out = realcode.full_translate(sheets, workdir=d)
             except Exception as e:  # noqa
